@@ -194,12 +194,14 @@ Example C18_example_integer_keyed :
   /\ dec_open BER T1 0 1 m1 [] false [48;6;2;1;1;2;1;12]
      = Ok (DV T1 (VRec [Some (VInt 1); Some (VAny [2;1;12])]), []).
 Proof. exact ex_int_keyed. Qed.
+Print Assumptions C18_example_integer_keyed.
 
 Example C18_example_unmapped :
   resolve_type [] m1 (VInt 3) = None
   /\ dec_open BER T1 0 1 m1 [] true [48;6;2;1;3;2;1;12]
      = Ok (DV T1 (VRec [Some (VInt 3); Some (VAny [2;1;12])]), []).
 Proof. exact ex_unmapped. Qed.
+Print Assumptions C18_example_unmapped.
 
 Example C18_example_override :
   resolve_type [(VInt 1, TOcts)] m1 (VInt 1) = Some TOcts
@@ -207,6 +209,7 @@ Example C18_example_override :
   /\ dec_open BER T1 0 1 m1 [(VInt 1, TOcts)] false [48;6;2;1;1;4;1;12]
      = Ok (DV (TSeq [(Req, TInt); (Req, TOcts)]) (VRec [Some (VInt 1); Some (VOcts [12])]), []).
 Proof. exact ex_override. Qed.
+Print Assumptions C18_example_override.
 
 Example C18_example_oid_keyed_explicit_constructed_cer :
   enc_open CER true 0 T2 0 (VRec [None; Some (VOid [1;3;6;1;2])]) true [(Tin2, VRec [Some (VInt 5); Some (VBool true)])] = Ok wire2
@@ -216,6 +219,7 @@ Example C18_example_oid_keyed_explicit_constructed_cer :
   /\ dec_open CER T2 1 0 m2 [] false wire2
      = Ok (DV T2 (VRec [Some (VAny [48;128;2;1;5;1;1;255;0;0]); Some (VOid [1;3;6;1;2])]), []).
 Proof. exact ex_oid_keyed_cer. Qed.
+Print Assumptions C18_example_oid_keyed_explicit_constructed_cer.
 
 Example C18_example_set_of_implicit_der :
   enc_open DER true 0 T5 1 (VRec [Some (VInt 1); None]) true [(TInt, VInt 256); (TInt, VInt 1)]
@@ -223,6 +227,7 @@ Example C18_example_set_of_implicit_der :
   /\ dec_open DER T5 0 1 m1 [] true [48;16;2;1;1;49;11;131;3;2;1;1;131;4;2;2;1;0]
      = Ok (DV (TSeq [(Req, TInt); (Req, TSetOf TInt)]) (VRec [Some (VInt 1); Some (VList [VInt 1; VInt 256])]), []).
 Proof. exact ex_set_of_der. Qed.
+Print Assumptions C18_example_set_of_implicit_der.
 
 Example C18_example_sorted_set_der :
   enc_open DER true 0 T6 1 (VRec [Some (VInt 1); None]) true [(TBool, VBool true)] = Ok [49;8;163;3;1;1;255;2;1;1]
@@ -230,12 +235,14 @@ Example C18_example_sorted_set_der :
   /\ dec_open DER T6 0 1 [(VInt 1, TBool)] [] true [49;8;163;3;1;1;255;2;1;1]
      = Ok (DV (TSet [(Req, TInt); (Req, TBool)]) (VRec [Some (VInt 1); Some (VBool true)]), []).
 Proof. exact ex_sorted_set_der. Qed.
+Print Assumptions C18_example_sorted_set_der.
 
 Example C18_example_premises_hold :
   rec_fields T1 = Some [(Req, TInt); (Req, TAny)] /\ is_any TAny = true /\ gov_ok TInt (VInt 1) = true
   /\ holds_blob TAny TInt = false /\ no_eoo_prefix [2;1;12] = true
   /\ (exists ce, concrete_encoder BER T1 = Ok ce /\ sorts_members (fst ce) = false).
 Proof. exact ex_premises. Qed.
+Print Assumptions C18_example_premises_hold.
 
 Example C18_example_repaired_F50_F51 :
   (enc_open BER true 0 T50 1 (VRec [Some (VInt 6); None]) true [(Ti50, VInt 5)] = Ok [48;8;2;1;6;163;3;131;1;5]
@@ -245,3 +252,4 @@ Example C18_example_repaired_F50_F51 :
       /\ dec_open DER T51 0 1 [(VInt 2, TOcts)] [] true [49;10;2;1;2;48;5;163;3;4;1;97]
          = Ok (DV (TSet [(Req, TInt); (Req, TSeqOf TOcts)]) (VRec [Some (VInt 2); Some (VList [VOcts [97]])]), [])).
 Proof. split; [exact (conj (proj1 (proj2 f50_repaired)) (proj1 (proj2 (proj2 f50_repaired)))) | exact f51_repaired]. Qed.
+Print Assumptions C18_example_repaired_F50_F51.
